@@ -107,6 +107,10 @@ type Client struct {
 	// FragSeed != 0: every call is sent as an RPC record of several fragments (RFC 1831 sec. 10),
 	// sizes drawn from this seed (zero-length fragments included)
 	FragSeed uint64
+	// PauseFor > 0: the next call reaches the server in two parts, the first PauseAt bytes (at least 1, less than
+	// all) and, after this long a silence, the rest (one-shot: cleared once used)
+	PauseAt  int
+	PauseFor time.Duration
 }
 
 // Dial opens a connection from addr ("ip:port").
@@ -170,6 +174,19 @@ func (c *Client) Exchange(xid uint32, wire []byte, prog, vers, proc uint32) (*nf
 		return nil, &ErrNoReply{fmt.Errorf("connection dead")}
 	}
 	c.Conn.SetWriteDeadline(time.Now().Add(c.Timeout))
+	if c.PauseFor > 0 && len(wire) > 1 {
+		cut := 1 + (c.PauseAt-1+len(wire)-1)%(len(wire)-1)
+		d := c.PauseFor
+		c.PauseFor = 0
+		if _, err := c.Conn.Write(wire[:cut]); err != nil {
+			c.Dead = true
+			return nil, &ErrNoReply{err}
+		}
+		simrt.Fault("net.pause_midrecord")
+		simrt.Sleep(d)
+		wire = wire[cut:]
+		c.Conn.SetWriteDeadline(time.Now().Add(c.Timeout))
+	}
 	if _, err := c.Conn.Write(wire); err != nil {
 		c.Dead = true
 		return nil, &ErrNoReply{err}
